@@ -5,6 +5,16 @@ use std::collections::{BTreeMap, BTreeSet};
 
 use serde_json::Value;
 
+/// Progress counter read by the worker's heartbeat thread: bumped before every
+/// call into the code under test, so that a long but progressing run is not
+/// mistaken for a hang.
+pub static PROGRESS: std::sync::atomic::AtomicU64 = std::sync::atomic::AtomicU64::new(0);
+
+#[inline]
+pub fn tick() {
+    PROGRESS.fetch_add(1, std::sync::atomic::Ordering::Relaxed);
+}
+
 #[derive(Clone, Debug)]
 pub struct Violation {
     pub key: String,
